@@ -8,6 +8,7 @@
 //! `VIOLATION property=<id> replay=<path>` is printed); 2 harness error.
 
 mod alloc;
+mod c13;
 mod c14;
 mod c15;
 mod c16;
@@ -272,6 +273,7 @@ fn digest<P: Property>(tier: Tier, o: &Opts) -> i32 {
 macro_rules! dispatch {
     ($id:expr, $f:ident, $($arg:expr),*) => {
         match $id {
+            "C13" => $f::<c13::P13>($($arg),*),
             "C14" => $f::<c14::P14>($($arg),*),
             "C15" => $f::<c15::P15>($($arg),*),
             "C16" => $f::<c16::P16>($($arg),*),
